@@ -215,4 +215,87 @@ theorem fixOne_setAddress (ss : List Stmt) (i : Nat) (s : Stmt) (v : Value) :
     · rfl
     · exact fixNonRel_setAddress ss i s _ v
 
+/-! ### `fitWidth` (the second half of the per-statement step `fixFit`) -/
+
+/-- `fitWidth` does not read the statement's own address either -/
+theorem fitWidth_setAddress (s : Stmt) (v : Value) :
+    fitWidth (s.setAddress v) = (fitWidth s).map (·.setAddress v) := by
+  unfold fitWidth
+  have e1 : (s.setAddress v).pkg.opCode = s.pkg.opCode := rfl
+  have e2 : (s.setAddress v).pkg.postByte = s.pkg.postByte := rfl
+  simp only [setAddress_row, setAddress_additional, setAddress_size, e1, e2]
+  split
+  · rfl
+  · split
+    · split
+      · split
+        · generalize fitNum _ _ _ = x
+          cases x <;> rfl
+        · rfl
+      · rfl
+    · rfl
+
+/-- the per-statement step `fixFit` = `fixOne` then `fitWidth` commutes with replacing the statement's own address -/
+theorem fixFit_setAddress (ss : List Stmt) (i : Nat) (s : Stmt) (v : Value) :
+    fixFit ss i (s.setAddress v) = (fixFit ss i s).map (·.setAddress v) := by
+  unfold fixFit
+  rw [fixOne_setAddress]
+  cases fixOne ss i s with
+  | ok s1 => simp only [Outcome.map_ok]; exact fitWidth_setAddress s1 v
+  | _ => rfl
+
+/-- the operand field of the statement is 16 bits wide: `fit_operand_width` leaves the statement alone (a
+directive other than FCB / FDB), or the size leaves four hex digits after op code and post byte (an extended
+or 16-bit immediate operand, `[label]`, FDB).  With a narrower field (`LDA <label`, `FCB label`) the value
+`x` may fit where `x + D` does not, and the two assemblies end differently. -/
+def FieldWide (s : Stmt) : Prop :=
+  fitSkipped s.row = true ∨
+  ∃ a b, s.pkg.opCode.hexLen? = some a ∧ s.pkg.postByte.hexLen? = some b ∧ 2 * s.pkg.size = a + b + 4
+
+theorem FieldWide.same {s s' : Stmt} (h : FieldWide s) (hs : SameButAdditional s s') : FieldWide s' := by
+  obtain ⟨v, rfl⟩ := hs
+  exact h
+
+/-- `fitWidth` on a 16-bit field that holds a wide address value `x` resp. `x + D`: both fit, and the results
+are again `D` apart (with hint 4, mode EXTENDED) -/
+theorem fitWidth_wide {D : Nat} {t : Stmt} (hf : FieldWide t)
+    (hw : WideAddr D t.pkg.additional (shiftV D t.pkg.additional)) :
+    ∃ t1, fitWidth t = .ok t1 ∧ fitWidth (t.shiftAdditional D) = .ok (t1.shiftAdditional D) ∧
+      WideAddr D t1.pkg.additional (shiftV D t1.pkg.additional) := by
+  by_cases hsk : fitSkipped t.row = true
+  · refine ⟨t, ?_, ?_, hw⟩
+    · unfold fitWidth; unfold fitSkipped at hsk; rw [if_pos hsk]
+    · unfold fitWidth; unfold fitSkipped at hsk
+      have : (t.shiftAdditional D).row = t.row := rfl
+      rw [this, if_pos hsk]
+  · rcases hf with hf | ⟨a, b, ha, hb, hsz⟩
+    · exact absurd hf hsk
+    · obtain ⟨x, h, m, e1, _, _, hlt⟩ := hw
+      have hd : 2 * (t.pkg.size : Int) - (a : Int) - (b : Int) = 4 := by omega
+      have h16 : (16 : Nat) ^ 4 = 65536 := by decide
+      refine ⟨{ t with pkg := { t.pkg with additional := .numeric x (some 4) .extended false } }, ?_, ?_,
+        x, some 4, .extended, rfl, rfl, .inl rfl, hlt⟩
+      · unfold fitWidth
+        unfold fitSkipped at hsk
+        rw [if_neg hsk, e1]
+        simp only [ha, hb]
+        generalize 2 * (t.pkg.size : Int) - (a : Int) - (b : Int) = dg at hd ⊢
+        subst hd
+        rw [if_pos (.inr rfl), show (4 : Int).toNat = 4 from rfl, fitNum_nat (.inr rfl) (by omega)]
+      · unfold fitWidth
+        unfold fitSkipped at hsk
+        have r1 : (t.shiftAdditional D).row = t.row := rfl
+        have r2 : (t.shiftAdditional D).pkg.additional = .numeric (x + D) h m false := by
+          show shiftV D t.pkg.additional = _
+          rw [e1]; rfl
+        have r3 : (t.shiftAdditional D).pkg.opCode = t.pkg.opCode := rfl
+        have r4 : (t.shiftAdditional D).pkg.postByte = t.pkg.postByte := rfl
+        have r5 : (t.shiftAdditional D).pkg.size = t.pkg.size := rfl
+        rw [r1, if_neg hsk, r2]
+        simp only [r3, r4, r5, ha, hb]
+        generalize 2 * (t.pkg.size : Int) - (a : Int) - (b : Int) = dg at hd ⊢
+        subst hd
+        rw [if_pos (.inr rfl), show (4 : Int).toNat = 4 from rfl, fitNum_nat (.inr rfl) (by omega)]
+        rfl
+
 end CoCo.Asm
